@@ -492,6 +492,23 @@ def cases_c08(rng, thorough):
         t = G.op_tee(rng.choice(joins), [pre[b] + shared for b in range(nb)])
         lts = rand_lifetimes(rng, rng.choice([1, 2]), 6, vals=range(-1, 4), reuse=0.4)
         cases.append(mux_case([t], G.schedule(rng, lts), share_ops=True))
+    # the same tee_map operator object applied more than once: in two branches of an outer
+    # tee_map, at two positions of a pipeline, inside two keyers (one application each)
+    for _ in range(60 if thorough else 16):
+        inner_t = G.op_tee(rng.choice(joins), [BRANCHES[rng.choice(names)]() for _ in range(2)])
+        shape = rng.randint(0, 3)
+        if shape == 0:
+            pipe = [G.op_tee(rng.choice(joins), [[inner_t], [inner_t]])]
+        elif shape == 1:
+            pipe = [G.op_tee('merge', [[G.op_filter('even'), inner_t], [G.op_filter('gec', 1), inner_t]])]
+        elif shape == 2:
+            zt = G.op_tee('zip', [[G.op_map('addc', 1)], [_scan_add()]])
+            pipe = [zt, G.op_map('fst'), zt]
+        else:
+            it = G.op_tee('zip', [[G.op_agg('max', True)], [G.op_simple('last')]])      # ints in, a pair of ints out
+            pipe = [G.op_group_by('modc', 2, [it]), G.op_map('fst'), G.op_group_by('modc', 2, [it])]
+        lts = rand_lifetimes(rng, rng.choice([1, 2]), 6, vals=range(4), reuse=0.4)
+        cases.append(mux_case(pipe, G.schedule(rng, lts), share_ops=True))
     cases += sparse_cases(rng, [[G.op_tee(j, [[G.op_filter('even')], [_scan_add()]])] for j in ('zip', 'combine_latest')]
                           + [[G.op_roll(30, 1, [G.op_tee('zip', [[], [{'op': 'count', 'reduce': False}]])])]],
                           3 if thorough else 1)
@@ -848,6 +865,30 @@ def cases_c13(rng, thorough):
         b2 = [h2] + rng.choice([[], [G.op_simple('lag', n=1)]])
         pipe = [fail, G.op_tee(rng.choice(['merge', 'zip', 'combine_latest']), [b1, b2])]
         lts = [(idx, G.ints([rng.choice([1, 2, 3]) for _ in range(rng.randint(0, 6))])) for idx in rng.sample([0, 1, 5], 2)]
+        cases.append(mux_case(pipe, G.schedule(rng, lts)))
+    # failing operator and handler inside the inner pipeline of a keyer (nested keys), also
+    # two levels deep
+    for _ in range(120 if thorough else 30):
+        fail = rng.choice([[G.op_map('failIf', 2)], [G.op_filter('failIfP', 2)], [G.op_scan('failAdd', I(0), c=2)],
+                           [G.op_map('dup'), {'op': 'starmap', 'f': fn('failAdd2', 4)}]])
+        h = rng.choice([G.op_simple('ignore'), {'op': 'errmap', 'f': fn('errconst', 77)}, {'op': 'errmap', 'f': fn('errcode')}])
+        down = rng.choice([[], [{'op': 'count', 'reduce': True}], [G.op_simple('to_list')], [G.op_simple('last')]])
+        inner = fail + [h] + down
+
+        def keyer(inn):
+            k = rng.randint(0, 3)
+            if k == 0:
+                return G.op_group_by('modc', 2, inn)
+            if k == 1:
+                w = rng.randint(1, 3)
+                return G.op_roll(w, rng.choice([w, 1]), inn)
+            if k == 2:
+                return G.op_split('divc', 2, inn)
+            return {'op': 'time_split', 'tm': fn('id'), 'active': -1, 'inactive': rng.choice([1, 2]),
+                    'closing': fn('none'), 'incl': False, 'inner': inn}
+        pipe = [keyer(inner)] if rng.random() < 0.7 else [keyer([keyer(inner)])]
+        lts = [(idx, G.ints(sorted(rng.choice([1, 2, 3, 4]) for _ in range(rng.randint(0, 6)))))
+               for idx in rng.sample([0, 1, 5], rng.choice([1, 2]))]
         cases.append(mux_case(pipe, G.schedule(rng, lts)))
     # rs.ops.multiplex (no store): stateless pipelines with handlers, and unhandled errors
     for _ in range(60 if thorough else 16):
@@ -1594,6 +1635,9 @@ def main(prop):
                     and not c.get('stateful_fn'):     # (a user function with a memory would remember the warm-up)
                 evs = [e for e in c['src'] if e.get('t') in ('c', 'n', 'd', 'e')]
                 c['warmup'] = evs[:rng.randint(1, len(evs))]
+                # ... or, half of the time, by an earlier application of the same operator
+                # objects to another source (with its own store), which has completed
+                c['reapply'] = rng.random() < 0.5
         stats = {}
         traces = MC.judge(V, cases, P['relevant'], stats, family=prop,
                           isolation=MC.tee_branches_alone if prop == 'C08' else None)
